@@ -89,14 +89,18 @@ impl QueryProp {
             });
         }
         let final_mode = s.draw(3);
-        self.run_history(&p, &steps, final_mode, rep)
+        // rarely (each costs 1.1 s): the caller of the final query pauses for more than the timer period
+        // between two answers, so a timer left behind by any earlier query fires while this one is live
+        let pause = final_mode == 0 && s.draw(250) == 249;
+        self.run_history(&p, &steps, final_mode, pause, rep)
     }
 
-    fn run_history(&self, p: &Program, steps: &[Step], final_mode: u32, rep: &mut Report) -> CaseResult {
+    fn run_history(&self, p: &Program, steps: &[Step], final_mode: u32, pause: bool, rep: &mut Report) -> CaseResult {
         let reference = solve_program(p, Limits::default());
         if reference.status != Status::Finished { return CaseResult::Discard("reference did not finish / out of domain".into()); }
         let expected: Vec<Vec<Term>> = reference.answers().into_iter().cloned().collect();
-        let case = format!("{}\nearlier queries: {:?}\nfinal query run with mode {}", p, steps, ["next_solution", "solve", "solve_all"][final_mode as usize]);
+        let case = format!("{}\nearlier queries: {:?}\nfinal query run with mode {}{}", p, steps, ["next_solution", "solve", "solve_all"][final_mode as usize],
+                           if pause { ", its caller sleeping 1.1 s after the query was built and its first answer (or None) was returned" } else { "" });
         // another query on the same knowledge base: the first user predicate, all arguments fresh
         let other_q: (String, Vec<Term>) = {
             let c = &p.clauses[p.clauses.len() / 2];
@@ -163,6 +167,22 @@ impl QueryProp {
             let _ = capture::take();
             // the query under test, built with a query constructor
             let (strings, outs): (Vec<String>, Vec<String>) = match final_mode {
+                0 if pause => {
+                    // enumerate by hand: first answer, 1.1 s of doing nothing, the rest
+                    let goal = Rc::new(mk_query(&p.qname, &p.qargs));
+                    let sn = suiron::make_base_node(Rc::clone(&goal), &kb);
+                    let (mut s2, mut o2) = (vec![], vec![]);
+                    let mut first = true;
+                    loop {
+                        let r = suiron::next_solution(Rc::clone(&sn));
+                        if first { first = false; std::thread::sleep(Duration::from_millis(1100)); }
+                        match r {
+                            Some(ss) => { let (_, _, display) = decode_answer(&goal, &ss); s2.push(fmt_solution(&p.qargs, &display)); o2.push(capture::take()); if s2.len() > limit { break; } }
+                            None => { o2.push(capture::take()); break; }
+                        }
+                    }
+                    (s2, o2)
+                }
                 0 => {
                     let (s2, o2, t2, _) = enumerate(&kb, mk_query(&p.qname, &p.qargs), &p.qargs, limit);
                     let mut o = o2; o.push(t2); (s2, o)
@@ -198,6 +218,8 @@ impl QueryProp {
                 if steps.iter().any(|x| matches!(x, Step::Partial { .. })) { rep.class("history-contains-abandoned-query"); }
                 if steps.iter().any(|x| matches!(x, Step::Exhaust { reasks, .. } if *reasks > 0)) { rep.class("history-contains-re-asked-query"); }
                 rep.class(&format!("final-mode:{}", ["next_solution", "solve", "solve_all"][final_mode as usize]));
+                if pause { rep.class("final-query-paused-1.1s-between-answers"); }
+                if steps.iter().any(|x| matches!(x, Step::Solve { .. })) { rep.class("history-contains-solve-calls"); }
                 if partial && !strings.is_empty() { rep.nontrivial(fnv(&case)); rep.sample(json!({"program": format!("{}", p), "earlier": format!("{:?}", steps), "answers": strings})); }
                 CaseResult::Pass
             }
@@ -255,6 +277,92 @@ impl QueryProp {
         }
     }
 
+    /// The harness plays the timer thread: stop_query() (all the timer callback does) is called on entry
+    /// to the k-th next_solution of a solve_all / solve run over a generated program, for several k.
+    fn simulated(&self, s: &mut dyn Src, rep: &mut Report) -> CaseResult {
+        let feat = Features { cut: true, not: true, output: false, anon: true, alias_heavy: false };
+        let (p, _) = gen_any_program(s, feat);
+        let ks: Vec<u32> = (0..4).map(|_| s.draw(1024)).collect();
+        let use_solve = chance(s, 1, 3);
+        let reference = solve_program(&p, Limits::default());
+        if reference.status != Status::Finished { return CaseResult::Discard("reference did not finish / out of domain".into()); }
+        let expected: Vec<Vec<Term>> = reference.answers().into_iter().cloned().collect();
+        let case0 = format!("{}", p);
+        let mut fired = 0u32;
+        let mut lost_after_not = false;
+        let r = guarded(crate::props::solver::tick_budget(reference.stats.steps) * 8, || -> Result<(), CaseResult> {
+            suiron::start_query();
+            let kb = build_kb(&p.clauses);
+            let (want, _, _, trunc) = enumerate(&kb, mk_query(&p.qname, &p.qargs), &p.qargs, expected.len() + 5);
+            if trunc || want.len() != expected.len() { return Err(CaseResult::Discard("baseline differs from the reference (C01's business)".into())); }
+            // how many next_solution entries does an undisturbed run take?
+            let t_before = ticks();
+            let sn = suiron::make_base_node(Rc::new(mk_query(&p.qname, &p.qargs)), &kb);
+            if use_solve { let mut n = 0; while suiron::solve(Rc::clone(&sn)) != NO_MORE { n += 1; if n > want.len() + 2 { break; } } } else { let _ = suiron::solve_all(sn); }
+            let used = ticks() - t_before;
+            for kf in &ks {
+                let k = 1 + (*kf as u64 * (used + 1)) / 1024; // 1..=used+1 (used+1: the timer never fires)
+                let case = format!("{}\nstop_query() called (as the timer thread does) on entry to next_solution number {} of {} during {}", case0, k, used, if use_solve { "successive solve calls" } else { "solve_all" });
+                let sn = suiron::make_base_node(Rc::new(mk_query(&p.qname, &p.qargs)), &kb);
+                let t0 = Instant::now();
+                stop_at_tick(ticks() + k);
+                if use_solve {
+                    let mut got: Vec<String> = vec![];
+                    let mut end = "";
+                    loop {
+                        let before = stop_injected();
+                        let r = suiron::solve(Rc::clone(&sn));
+                        let during = stop_injected() && !before;
+                        if r == TIMEOUT_MSG {
+                            if !during && t0.elapsed() < Duration::from_millis(500) { stop_at_tick(0); return Err(fail(self.id, "false-timeout", format!("solve reported a timeout although the timer did not fire during that call; answers so far {:?}", got), case)); }
+                            end = "timeout"; break;
+                        }
+                        if r == NO_MORE { end = "no-more"; break; }
+                        got.push(r);
+                        if got.len() > want.len() + 2 { break; }
+                    }
+                    stop_at_tick(0);
+                    if got.len() > want.len() || got[..] != want[..got.len()] { return Err(fail(self.id, "not-a-prefix-of-the-answers", format!("answers: {:?}\nsolve returned: {:?} then {}", want, got, end), case)); }
+                    if end == "no-more" && got.len() != want.len() { return Err(fail(self.id, "incomplete-without-timeout", format!("answers: {:?}\nsolve returned: {:?} then `No more.`", want, got), case)); }
+                    if end == "timeout" { fired += 1; }
+                } else {
+                    let mut v = suiron::solve_all(sn);
+                    let injected = stop_injected();
+                    stop_at_tick(0);
+                    let to = v.last().map_or(false, |x| x == TIMEOUT_MSG);
+                    if to { v.pop(); }
+                    if v.iter().any(|x| x == TIMEOUT_MSG) { return Err(fail(self.id, "timeout-message-not-last", format!("{:?}", v), case)); }
+                    if to && !injected {
+                        if t0.elapsed() < Duration::from_millis(500) { return Err(fail(self.id, "false-timeout", format!("solve_all reported a timeout although the timer never fired: {:?}", v), case)); }
+                        return Err(CaseResult::Discard("fast query took > 0.5 s of wall time (machine overloaded): inconclusive".into()));
+                    }
+                    if v.len() > want.len() || v[..] != want[..v.len()] { return Err(fail(self.id, "not-a-prefix-of-the-answers", format!("answers: {:?}\nreported: {:?}{}", want, v, if to { " + timeout message" } else { "" }), case)); }
+                    if !to && v.len() != want.len() { return Err(fail(self.id, "incomplete-without-timeout", format!("no timeout message but answers are missing\nanswers: {:?}\nreported: {:?}", want, v), case)); }
+                    if to { fired += 1; if v.len() < want.len() { lost_after_not = true; } }
+                }
+            }
+            Ok(())
+        });
+        let was_injected = stop_injected();
+        stop_at_tick(0);
+        match r {
+            Ok(Ok(())) => {
+                rep.class("class:timer-fires-at-step-k");
+                rep.class_n("simulated:timer-fired", fired as u64);
+                rep.class_n("simulated:timer-never-fired", 4 - fired as u64);
+                let has_not = p.clauses.iter().any(|c| c.body.as_ref().map_or(false, |b| b.any(&|g| matches!(g, Goal::Not(_)))));
+                if has_not && fired > 0 { rep.class("simulated:program-with-not"); }
+                if fired > 0 && lost_after_not && expected.len() >= 1 { rep.nontrivial(fnv(&format!("{}{:?}", case0, ks))); rep.sample(json!({"program": case0, "timer_fired_in": fired, "of": 4})); }
+                CaseResult::Pass
+            }
+            Ok(Err(c)) => c,
+            // a search that was cut short can go down a path the real search never takes (e.g. a clause after a cut
+            // which did not get to run) and unify terms there that would need an occurs check: outside every claim
+            Err(EngineFail::Cycle { .. }) if was_injected => CaseResult::Discard("occurs-check situation on a path only the cut-short search takes".into()),
+            Err(e) => fail(self.id, "engine-failure", format!("{:?}", e), case0),
+        }
+    }
+
     /// A query whose search burns n^depth resolution steps between its early and late answers.
     fn slow(&self, n: u32, depth: u32, variant: u32, use_solve: bool, rep: &mut Report) -> CaseResult {
         let vars: Vec<String> = (0..depth).map(|i| format!("$A{}", i)).collect();
@@ -266,6 +374,13 @@ impl QueryProp {
         match variant {
             0 => { text.push_str(&format!("burn :- {}, fail. q($X) :- early($X). q($X) :- burn, mid($X). q($X) :- late($X). ", gens.join(", "))); }
             1 => { text.push_str(&format!("burn :- {}, fail. q($X) :- early($X). q($X) :- not(burn), mid($X). q($X) :- late($X). ", gens.join(", "))); expected.push("$X = m1".into()); }
+            3 | 4 => {
+                // not(G) with G provable, but only by the very last combination: when the timer cuts the search of G
+                // short, G fails and not(G) succeeds - an answer the query does not have, which must not be reported
+                text.push_str(&format!("all_n({}). slowtrue :- {}, all_n({}). ", (0..depth).map(|_| n.to_string()).collect::<Vec<_>>().join(", "), gens.join(", "), vars.join(", ")));
+                if variant == 3 { text.push_str("q($X) :- early($X). q($X) :- not(slowtrue), $X = m1. q($X) :- late($X). "); }
+                else { text.push_str("q($X) :- early($X). q(m1) :- not(slowtrue). q($X) :- late($X). "); }
+            }
             _ => {
                 // answers appear inside the loop: when all generators agree on 1, on n/2 (if > 1) and on n
                 let mut ks = vec![1u32]; if n / 2 > 1 { ks.push(n / 2); } if n > 1 && n != n / 2 { ks.push(n); }
@@ -276,7 +391,7 @@ impl QueryProp {
         expected.push("$X = z1".into()); expected.push("$X = z2".into());
         text.push_str("?- q($X).");
         let p = match parse_program(&text) { Ok(p) => p, Err(e) => panic!("harness: slow program does not parse: {}", e) };
-        let case = format!("slow query: n = {} facts, {} nested generators, variant {}, via {}\n{}", n, depth, ["burn", "not(burn)", "answers-in-loop"][variant as usize], if use_solve { "solve" } else { "solve_all" },
+        let case = format!("slow query: n = {} facts, {} nested generators, variant {}, via {}\n{}", n, depth, ["burn", "not(burn)", "answers-in-loop", "not(provable-at-the-end), then =", "not(provable-at-the-end) as last goal"][variant as usize], if use_solve { "solve" } else { "solve_all" },
                            text.split(". ").filter(|l| !l.starts_with("d(")).collect::<Vec<_>>().join(". "));
         let r = guarded(u64::MAX, || -> Result<(bool, f64), CaseResult> {
             suiron::start_query();
@@ -328,15 +443,27 @@ impl QueryProp {
     }
 
     /// Queries that finish within microseconds must not leave a live timer behind that stops a later query.
-    fn stray_timer(&self, rounds: usize, rep: &mut Report) -> CaseResult {
+    fn stray_timer(&self, rounds: usize, last_kind: usize, rep: &mut Report) -> CaseResult {
         let p = parse_program("q(1). q(2). q(3). ?- q($X).").unwrap();
-        let case = format!("{} fast solve_all / solve calls on `q(1). q(2). q(3).`, then 1.3 s of waiting, then the same query again", rounds);
+        let case = format!("{} fast solve_all / solve calls on `q(1). q(2). q(3).` ending in every possible way (all answers, first answer, `No more.`, re-asked, no answer, unknown predicate), the last one of kind {}, then 1.3 s of waiting, then the same query again", rounds, last_kind % 6);
         let r = guarded(u64::MAX, || -> Result<(), CaseResult> {
             suiron::start_query();
             let kb = build_kb(&p.clauses);
-            for i in 0..rounds {
-                let sn = suiron::make_base_node(Rc::new(mk_query("q", &[Term::var("$X")])), &kb);
-                if i % 2 == 0 { let _ = suiron::solve_all(sn); } else { let _ = suiron::solve(sn); }
+            for i in 0..=rounds {
+                // every way a solve / solve_all call can end; the last call (whose timer no later call invalidates) is of kind `last_kind`
+                match if i == rounds { last_kind % 6 } else { i % 6 } {
+                    0 => { let sn = suiron::make_base_node(Rc::new(mk_query("q", &[Term::var("$X")])), &kb); let _ = suiron::solve_all(sn); }
+                    1 => { let sn = suiron::make_base_node(Rc::new(mk_query("q", &[Term::var("$X")])), &kb); let _ = suiron::solve(sn); }
+                    2 => {
+                        // answers, then `No more.`, then asked again
+                        let sn = suiron::make_base_node(Rc::new(mk_query("q", &[Term::var("$X")])), &kb);
+                        let mut n = 0; while suiron::solve(Rc::clone(&sn)) != NO_MORE { n += 1; if n > 5 { break; } }
+                        let _ = suiron::solve(Rc::clone(&sn));
+                    }
+                    3 => { let sn = suiron::make_base_node(Rc::new(mk_query("q", &[Term::Int(9)])), &kb); let _ = suiron::solve_all(sn); }
+                    4 => { let sn = suiron::make_base_node(Rc::new(mk_query("q", &[Term::Int(9)])), &kb); let _ = suiron::solve(sn); }
+                    _ => { let sn = suiron::make_base_node(Rc::new(mk_query("no_such_predicate", &[Term::var("$X")])), &kb); let _ = suiron::solve_all(sn); }
+                }
             }
             // a query that is being enumerated slowly by its caller (no timer of its own)
             let sn = suiron::make_base_node(Rc::new(mk_query("q", &[Term::var("$X")])), &kb);
@@ -372,24 +499,27 @@ fn calibrate() -> f64 {
 impl Property for QueryProp {
     fn id(&self) -> &'static str { self.id }
     fn max_len(&self) -> usize { 256 }
+    // cases with real timers cost seconds each, and so does every shrink step on them
+    fn max_shrink_iters(&self) -> u32 { match self.aspect { QAspect::History => 400, QAspect::Timeout => 60 } }
     // C23 thorough is bounded by memory, not time: the engine's node trees are reference cycles and a
     // query that runs into the 1 s limit leaks tens of MB, so 2500 cases x 16 workers exceeded the
     // machine's 62 GB (workers were OOM-killed: inconclusive). 600 cases stay near 2 GB per worker.
-    fn budget(&self) -> (u64, u64) { match self.aspect { QAspect::History => (1500, 40_000), QAspect::Timeout => (150, 600) } }
+    fn budget(&self) -> (u64, u64) { match self.aspect { QAspect::History => (1500, 40_000), QAspect::Timeout => (600, 2400) } }
 
     fn check(&self, s: &mut dyn Src, rep: &mut Report) -> CaseResult {
         match self.aspect {
             QAspect::History => self.history(s, rep),
-            QAspect::Timeout => match weighted(s, &[40, 2, 1]) {
+            QAspect::Timeout => match weighted(s, &[200, 5, 2, 400]) {
                 0 => self.fast(s, rep),
+                3 => self.simulated(s, rep),
                 1 => {
                     // sizes on both sides of the 1 s limit
                     let t8 = calibrate();
                     let target = [0.15, 0.4, 0.8, 1.2, 1.6, 2.5][s.draw(6) as usize];
                     let n = (8.0 * (target / t8).powf(0.2)).round().max(2.0).min(60.0) as u32;
-                    self.slow(n, 5, s.draw(3), chance(s, 1, 2), rep)
+                    self.slow(n, 5, s.draw(5), chance(s, 1, 2), rep)
                 }
-                _ => self.stray_timer(1500 + 500 * s.draw(4) as usize, rep),
+                _ => { let n = 300 + 500 * s.draw(4) as usize; let k = s.draw(6) as usize; self.stray_timer(n, k, rep) },
             },
         }
     }
@@ -399,18 +529,24 @@ impl Property for QueryProp {
         match self.aspect {
             QAspect::History => {
                 let p = parse_program("item(1). item(2). ?- item($X).").unwrap();
-                out.push(("after-timeout".into(), self.run_history(&p, &[Step::CheapTimeout], 2, rep)));
-                out.push(("after-timeout-next-solution".into(), self.run_history(&p, &[Step::SolveAll { other: false }, Step::CheapTimeout], 0, rep)));
-                out.push(("after-partial".into(), self.run_history(&p, &[Step::Partial { other: false, k: 1 }, Step::Solve { other: false, k: 5 }], 1, rep)));
+                out.push(("after-timeout".into(), self.run_history(&p, &[Step::CheapTimeout], 2, false, rep)));
+                out.push(("after-timeout-next-solution".into(), self.run_history(&p, &[Step::SolveAll { other: false }, Step::CheapTimeout], 0, false, rep)));
+                out.push(("after-partial".into(), self.run_history(&p, &[Step::Partial { other: false, k: 1 }, Step::Solve { other: false, k: 5 }], 1, false, rep)));
+                // every way a solve / solve_all call can end, then a slowly consumed query (1.1 s pause)
+                let p3 = parse_program("item(1). item(2). item(3). two($X, $Y) :- item($X), item($Y). ?- two($X, $Y).").unwrap();
+                out.push(("paused-after-solve-to-no-more".into(), self.run_history(&p3, &[Step::Solve { other: false, k: 12 }], 0, true, rep)));
+                out.push(("paused-after-solve-partial-and-solve-all".into(), self.run_history(&p3, &[Step::Solve { other: true, k: 2 }, Step::SolveAll { other: false }, Step::Unknown], 0, true, rep)));
+                out.push(("paused-after-timeout-and-reasks".into(), self.run_history(&p3, &[Step::CheapTimeout, Step::Exhaust { other: false, reasks: 2 }, Step::Solve { other: true, k: 5 }], 0, true, rep)));
             }
             QAspect::Timeout => {
                 // always: queries on both sides of the limit (sized by calibration), and one stray-timer round
                 let t8 = calibrate();
-                for (i, (target, variant, use_solve)) in [(2.2, 0u32, false), (1.8, 2, true), (0.3, 1, false)].iter().enumerate() {
+                for (i, (target, variant, use_solve)) in [(2.2, 0u32, false), (1.8, 2, true), (0.3, 1, false), (2.0, 3, false), (1.7, 4, false)].iter().enumerate() {
                     let n = (8.0 * (target / t8).powf(0.2)).round().max(2.0).min(60.0) as u32;
                     out.push((format!("slow-{}", i), self.slow(n, 5, *variant, *use_solve, rep)));
                 }
-                out.push(("stray-timer".into(), self.stray_timer(4000, rep)));
+                out.push(("stray-timer".into(), self.stray_timer(4000, 2, rep)));
+                out.push(("stray-timer-no-answer".into(), self.stray_timer(600, 4, rep)));
             }
         }
         out
